@@ -467,7 +467,7 @@ def coord():
 @st.composite
 def dist_cases(draw):
     d = draw(st.integers(1, 4)); n = draw(st.integers(1, 4)); m = draw(st.integers(1, 4))
-    mode = draw(st.sampled_from(['point', 'point', 'pair', 'vec', 'vec2', 'scalars', 'self']))
+    mode = draw(st.sampled_from(['point', 'point', 'pair', 'vec', 'vec2', 'scalars', 'self', 'vec-set']))
     if mode == 'pair':
         m = n
     if mode in ('vec', 'vec2'):
@@ -995,6 +995,15 @@ def run_dist(case, ctx):
             ctx.expect(got.shape == np.shape(want) and np.allclose(got, want, rtol=REL, atol=ABS), 'C18.' + name,
                        lambda: dict(mode=mode, X=X, XP=xp, p=case['p'], got=got.tolist(), want=want))
         ties = any(a[k] == b[k] for a in X for b in B for k in range(len(a))) and X != B
+    elif mode == 'vec-set':
+        # a single point given as a plain vector against a set of points: its distance to each of them
+        a = X[0]
+        for name in names:
+            got = np.ravel(np.asarray(call(name, a, XP, axis=0)))
+            want = [_metric(name, a, b, p) for b in XP]
+            ctx.expect(got.shape == np.shape(want) and np.allclose(got, want, rtol=REL, atol=ABS), 'C18.' + name,
+                       lambda: dict(mode=mode, x=a, XP=XP, p=case['p'], got=got.tolist(), want=want))
+        ties = any(a[k] == b[k] for b in XP for k in range(len(a)))
     elif mode == 'pair':
         ad = np.asarray(D.absolute_distance(X, XP, pair=True))
         wantad = [[abs(s - t) for s, t in zip(a, b)] for a, b in zip(X, XP)]
